@@ -135,3 +135,46 @@ def c17(tier, seed):
                listing_histories=fr['histories'], samples=sample, exhaustive=False)
     return errors, viols, cov, 'model_checking', ['std::char::decode_utf16 is not trusted: expectations come from Lfn.tla',
                                                   'malformed directory images are checked for results and crashes only (lenient mode)'], time.time() - t0
+
+def c15(tier, seed):
+    import fspipe, fsgen
+    t0 = time.time()
+    build_harness()
+    wd = os.path.join(OUT, 'pure', 'c15-%s-%d' % (tier, seed))
+    os.makedirs(wd, exist_ok=True)
+    quick = tier == 'quick'
+    geoms = fsgen.mount_geometries(seed, quick)
+    pick = geoms if not quick else geoms[::3]
+    json.dump(dict(images=[dict(vols=[v]) for v in pick]), open(os.path.join(wd, 'images.json'), 'w'))
+    vec = os.path.join(wd, 'vectors.ndjson')
+    r = sh([VH, 'mount', os.path.join(wd, 'images.json'), vec, tier, str(seed)])
+    if r.returncode != 0:
+        raise ToolError('vh mount failed: ' + r.stdout[-2000:])
+    traces, n = split_lines(vec, 10, wd, 'mountvec')
+    results = validate('MountTrace.tla', 'MountTrace.cfg', traces, 'mount')
+    errors, viols, states, gen = collect(results)
+    # the valid part: full histories on every generated layout, validated by FatTrace
+    fr = fspipe.run_suite('mount', tier, seed)
+    errors += fr['errors']
+    for v in fr['viols']:
+        viols.append(dict(hid=v['hid'], line=v['line'], prop='C15', tag='Layout:' + v['tag'], detail='%s (property %s) on a valid layout %s' % (v['detail'], v['prop'], v['hid']),
+                          trace=os.path.join(fr['dir'], 'trace-%d.ndjson' % v['shard'])))
+    tool = [v for v in viols if v['prop'] == 'TOOL']
+    if tool:
+        errors.append('formatter / Mount.tla disagree: %s' % tool[0])
+    lines = open(vec).read().splitlines()
+    sample = [json.loads(lines[i]) for i in (0, 40, len(lines) - 2)]
+    outcomes = {}
+    for ln in lines:
+        e = json.loads(ln)
+        outcomes[e['r']] = outcomes.get(e['r'], 0) + 1
+    cov = dict(evaluations=n + fr['api_calls'], distinct_nontrivial=n,
+               rule='invalid part: each vector = one open_volume on an image with one mutated field (every MBR / boot-sector / info-sector field at 0, 1, 2, max, max-1, +-1, '
+                    'all 256 values of the byte fields), random byte mutations, fully random sectors, the partition moved to the end of the 32-bit range; one TLC step of '
+                    'MountTrace each (panic = violation; Mount.Valid and refused = violation); valid part: layouts over blocks per cluster 1..128 x cluster counts '
+                    '4085/4086/65524/65525/... x reserved / FAT count / root entries / 16-32-bit totals / partition slot and offset, each driven through open, list, read, '
+                    'create, remount and validated by FatTrace; distinct = distinct mutation vectors',
+               states=states + fr['tlc_states'], transitions=gen + fr['tlc_generated'], traces_validated_against_impl=n + fr['histories'],
+               valid_layout_histories=fr['histories'], outcomes=outcomes, samples=sample, exhaustive=False)
+    return errors, viols, cov, 'model_checking', ['only open_volume is judged on invalid input (operations on a volume opened from a damaged boot sector are out of scope)',
+                                                  'the independent formatter is cross-checked against Mount.Layout on every image'], time.time() - t0
